@@ -831,4 +831,128 @@ theorem discharge_sim (acts : List Act) (h : Nat) (hch : Chain acts h) :
             obtain ⟨extra2, d2, ht2, hdr2⟩ := ih _ _ _ m' hc1 hab1 hio1 hf
             exact ⟨[.getTimeout] ++ extra ++ extra2, d2, by simp [ht2, ht, emit], drun_two (drun_two hget hdr) hdr2⟩
 
+/-! ### liveness of the holder: with enough call depth nothing halts downstream, and a time-out
+    event makes the holder let go of its event -/
+
+def kidsOfEv : Ev → Nat
+  | .reg e => e.kids
+  | _ => 0
+
+/-- downstream of the holder, a run needs at most (remaining actions + children + 3) nested calls -/
+theorem post_total (acts : List Act) :
+    ∀ fuel,
+      (∀ idx ev ps, NoHolderFrom acts idx → Clean ps → idx ≤ acts.length → (acts.length - idx) + kidsOfEv ev + 3 ≤ fuel →
+        ∀ w, (doActs fuel acts idx ev ps).2 ≠ .halt w) ∧
+      (∀ idx sk k ps, NoHolderFrom acts (idx+1) → Clean ps → idx < acts.length → (acts.length - idx) + k + 2 ≤ fuel →
+        (spawnKids fuel acts idx sk k ps).2 = none) := by
+  intro fuel
+  induction fuel with
+  | zero =>
+    constructor
+    · intro idx ev ps _ _ _ hb; omega
+    · intro idx sk k ps _ _ _ hb; omega
+  | succ n ih =>
+    obtain ⟨ihA, ihK⟩ := ih
+    constructor
+    · intro idx ev ps hno hc _ hb w
+      have hno1 : NoHolderFrom acts (idx+1) := fun j g hj => hno j g (by omega)
+      rw [doActs.eq_def]; simp only
+      cases hget : acts[idx]? with
+      | none => simp
+      | some a =>
+        have hidx : idx < acts.length := by
+          rcases Nat.lt_or_ge idx acts.length with hl | hg
+          · exact hl
+          · rw [List.getElem?_eq_none_iff.2 hg] at hget; cases hget
+        simp only
+        by_cases hsk : (!isBusy ps idx && skips ev idx) = true
+        · rw [if_pos hsk]; exact ihA _ _ _ hno1 hc (by omega) (by omega) w
+        · rw [if_neg hsk]
+          cases a with
+          | plain i =>
+            simp only; rw [resetBusy_clean hc]
+            split
+            · exact ihA _ _ _ hno1 hc (by omega) (by omega) w
+            · simp
+            · simp
+          | spawner =>
+            simp only
+            cases ev with
+            | reg e =>
+              simp only
+              by_cases hk : e.kids = 0
+              · rw [if_pos hk, resetBusy_clean hc]; exact ihA _ _ _ hno1 hc (by omega) (by simp [kidsOfEv] at hb ⊢; omega) w
+              · rw [if_neg hk]
+                have hnone := ihK idx e.kidSkip e.kids ps hno1 hc hidx (by simp [kidsOfEv] at hb; omega)
+                cases hsp : spawnKids n acts idx e.kidSkip e.kids ps with
+                | mk ps1 r1 =>
+                  rw [hsp] at hnone; simp only at hnone; subst hnone
+                  obtain ⟨c1, _, _⟩ := (post_run acts n).2 _ _ _ _ _ _ hno1 hc hsp
+                  simp [busyTotal_clean c1]
+            | tmo => simp only; rw [resetBusy_clean hc]; exact ihA _ _ _ hno1 hc (by omega) (by simp [kidsOfEv] at hb ⊢; omega) w
+            | child sk => simp only; rw [resetBusy_clean hc]; exact ihA _ _ _ hno1 hc (by omega) (by simp [kidsOfEv] at hb ⊢; omega) w
+          | holder f => exact absurd hget (hno idx f (Nat.le_refl _))
+    · intro idx sk k ps hno hc hidx hb
+      cases k with
+      | zero => rw [spawnKids.eq_def]
+      | succ k =>
+        rw [spawnKids.eq_def]; simp only
+        cases hd : doActs n acts (idx+1) (.child sk) ps with
+        | mk ps1 r1 =>
+          have hnh := ihA (idx+1) (.child sk) ps hno hc (by omega) (by simp [kidsOfEv]; omega)
+          rw [hd] at hnh; simp only at hnh
+          obtain ⟨c1, _, _⟩ := (post_run acts n).1 _ _ _ _ _ hno hc hd
+          cases r1 with
+          | halt w => exact absurd rfl (hnh w)
+          | passed => simp only; exact ihK idx sk k ps1 hno c1 hidx (by omega)
+          | stopped l => simp only; exact ihK idx sk k ps1 hno c1 hidx (by omega)
+
+/-- **a time-out event reaches the holder and the held event leaves the processor**: whatever
+    action handled the previous event (`last`), the time-out is delivered to the busy holder
+    (processor.timeoutAction), which re-injects its event; that event is handed to the output or
+    dropped, the processor frame returns with nothing busy. -/
+theorem timeout_flushes (acts : List Act) (h : Nat) (hch : Chain acts h)
+    (ps : PS) (x : EvSpec) (f : Nat) (hh : Holding ps h x) (hget : acts[h]? = some (.holder f))
+    (last fuel : Nat) (hfuel : acts.length + x.kids + 8 ≤ fuel) :
+    ∃ ps', procEv fuel acts .tmo (timeoutAction ps last) ps = (ps', .stopped h) ∧ Clean ps' ∧ ps'.ins = ps.ins ∧
+      (ps'.toks = ps.toks ++ [.propagate x.seq, .out x.seq] ∨ ps'.toks = ps.toks ++ [.propagate x.seq, .drop x.seq]) := by
+  rw [timeoutAction_holding hh]
+  obtain ⟨n4, rfl⟩ : ∃ n4, fuel = n4 + 5 := ⟨fuel - 5, by omega⟩
+  have hno := noHolder_after hch
+  -- the nested frame of the flush
+  have hflush : ∃ ps1, flushAt (n4+3) acts h ps = (ps1, none) ∧ Clean ps1 ∧ ps1.ins = ps.ins ∧
+      (ps1.toks = ps.toks ++ [.propagate x.seq, .out x.seq] ∨ ps1.toks = ps.toks ++ [.propagate x.seq, .drop x.seq]) := by
+    cases hfl : flushAt (n4+3) acts h ps with
+    | mk ps1 r1 =>
+      obtain ⟨hi, hcase⟩ := flush_holding acts h hno (n4+3) ps ps1 r1 x hh hfl
+      rcases hcase with ⟨rfl, hc, ht⟩ | ⟨hr, _⟩
+      · exact ⟨ps1, rfl, hc, hi, ht⟩
+      · -- cannot halt: enough depth
+        exfalso
+        rw [flushAt.eq_def] at hfl; simp only [heldAt_holding hh] at hfl
+        obtain ⟨c0, _, _⟩ := flush_state hh (.propagate x.seq)
+        generalize resetBusy (emit (setHeld ps h none) (.propagate x.seq)) h = ps0 at hfl c0
+        rw [procSeq.eq_def] at hfl; simp only at hfl
+        rw [procEv.eq_def] at hfl; simp only at hfl
+        have hlen : h < acts.length := by
+          rcases Nat.lt_or_ge h acts.length with hl | hg
+          · exact hl
+          · rw [List.getElem?_eq_none_iff.2 hg] at hget; cases hget
+        have hnh := (post_total acts n4).1 (h+1) (.reg x) ps0 hno c0 (by omega) (by simp [kidsOfEv]; omega)
+        cases hd : doActs n4 acts (h+1) (.reg x) ps0 with
+        | mk ps2 r2 =>
+          rw [hd] at hfl hnh; simp only at hnh
+          obtain ⟨c2, _, _⟩ := (post_run acts n4).1 _ _ _ _ _ hno c0 hd
+          cases r2 with
+          | halt w => exact absurd rfl (hnh w)
+          | passed => simp only at hfl; cases hfl; exact hr rfl
+          | stopped l => simp only [busyTotal_clean c2, ↓reduceIte] at hfl; cases hfl; exact hr rfl
+  obtain ⟨ps1, hfl, hc1, hi1, ht1⟩ := hflush
+  refine ⟨ps1, ?_, hc1, hi1, ht1⟩
+  rw [procEv.eq_def]; simp only
+  rw [doActs.eq_def]; simp only [hget]
+  have hbusy : isBusy ps h = true := by simp [isBusy, hh.1]
+  simp only [hbusy, Bool.not_true, Bool.false_and, Bool.false_eq_true, ↓reduceIte, heldAt_holding hh,
+    Option.isSome_some, hfl, resetBusy_clean hc1, busyTotal_clean hc1]
+
 end FileD.Proc
